@@ -23,7 +23,25 @@ Inductive crel := RelGt | RelGe | RelLt | RelLe | RelEq | RelNe | StructEq | Str
 Inductive subs_mode := SubsSim | SubsSeq | SubsUnknown.
 Inductive tuple_mode := TupSim | TupSeq | TupUnknown.
 Inductive stmt_else := StmtRaise | StmtSkip | StmtUnknown.
-Inductive cf_mode := CfContinuation | CfUnknown.
+(** On which symbol table a branch of an `if` is translated (together with the statements that
+    follow the if):
+      BrCopy         ctx.updated(symbols=dict(ctx.symbols))      -- its own copy (the shipped code)
+      BrCtx          ctx                                          -- the enclosing table itself
+      BrShared       one copy made before the if, handed to BOTH recursive calls (seeded C07-2)
+      BrCopyIfBinds  a copy only if the branch has a top-level assignment, else ctx (seeded C06-1) *)
+Inductive branch_ctx := BrCopy | BrCtx | BrShared | BrCopyIfBinds.
+(** shape of the ast.If block of _handle_fn_body:
+      CfContinuation bi be   both branches are translated WITH the statements after the if
+                             ([*branch, *remaining_body]); bi / be = table of the if / else branch
+      CfOldPieces            the translator before /repo cc17922: a `pieces` list, one table shared by
+                             everything, the statements after a complete if/else never looked at *)
+Inductive cf_mode := CfContinuation (bi be : branch_ctx) | CfOldPieces | CfUnknown.
+(** when are module-level / attribute float constants read?
+      ConstAtCall   inspect.getmembers(module, float) inside _handle_name/_handle_attribute: at every
+                    translation (the shipped code)
+      ConstCached   through a memoised helper keyed on the module: at the module's FIRST lookup in the
+                    process (seeded C06-3) *)
+Inductive const_mode := ConstAtCall | ConstCached | ConstUnknown.
 
 Record facts := mkFacts {
   f_bin : list (binop * binop);      (* _handle_binop: ast operator -> sympy operation *)
@@ -36,7 +54,8 @@ Record facts := mkFacts {
   f_cf : cf_mode;                    (* shape of the ast.If block of _handle_fn_body *)
   f_kw_refused : bool;               (* _handle_call refuses keyword arguments *)
   f_const_float : bool;              (* ast.Constant int/float -> sympy.Float(val) *)
-  f_known_wrapped : bool             (* KNOWN_FNS results go through sympy.Float(...) (symbolic args refuse) *)
+  f_known_wrapped : bool;            (* KNOWN_FNS results go through sympy.Float(...) (symbolic args refuse) *)
+  f_const : const_mode               (* when module / attribute float constants are read *)
 }.
 
 Definition symtab := list (name * sexpr).
@@ -211,8 +230,7 @@ Section Translate.
             match s with
             | SIf c a b =>
                 match f_cf fs with
-                | CfUnknown => TRefused
-                | CfContinuation =>
+                | CfContinuation BrCopy BrCopy =>
                     let cond := tcond sigma c in
                     let ie := tbody fuel' (sapp a rest) (sapp a rest) sigma in
                     let ee := tbody fuel' (sapp b rest) (sapp b rest) sigma in
@@ -229,6 +247,7 @@ Section Translate.
                         end
                     | _, _ => TRefused
                     end
+                | _ => TRefused          (* another shape: [tbody_sh] / [told] below, chosen by [tfun] *)
                 end
             | SReturn e => lift (texpr sigma e)
             | SReturnNone => TRefused
@@ -251,6 +270,167 @@ Section Translate.
             end
         end
     end.
+
+  (** ---- the other shapes of the ast.If block (regression variants) --------------------------
+      The table is a mutable dict in Python; when a branch is NOT translated on its own copy its
+      assignments stay visible afterwards, so these variants thread the table: the result is
+      (expression, table of THIS call's ctx when it returns). *)
+
+  (** `any(isinstance(stmt, (ast.Assign, ...)) for stmt in branch)` of seeded C06-1's _branch_ctx
+      ([SOther] covers augmented/annotated assignments, which are not ast.Assign) *)
+  Fixpoint binds_top (ss : stmts) : bool :=
+    match ss with
+    | SNil => false
+    | SCons (SAssign _ _) _ => true
+    | SCons (STuple _ _) _ => true
+    | SCons _ r => binds_top r
+    end.
+
+  Definition on_ctx (b : branch_ctx) (branch : stmts) : bool :=
+    match b with BrCtx => true | BrCopyIfBinds => negb (binds_top branch) | _ => false end.
+
+  Definition join_if (cond : option scond) (ie ee : tresult) : tresult :=
+    match ie, ee with
+    | TOutOfFuel, _ | _, TOutOfFuel => TOutOfFuel
+    | TOk ie', TOk ee' =>
+        match cond with
+        | Some c' =>
+            match ee' with
+            | SPw ps => TOk (SPw (PCons ie' c' ps))
+            | _ => TOk (SPw (PCons ie' c' (PCons ee' (SBool true) PNil)))
+            end
+        | None => TRefused
+        end
+    | _, _ => TRefused
+    end.
+
+  Fixpoint tbody_sh (bi be : branch_ctx) (fuel : nat) (body remaining : stmts) (sigma : symtab)
+    : tresult * symtab :=
+    match fuel with
+    | O => (TOutOfFuel, sigma)
+    | Datatypes.S fuel' =>
+        match remaining with
+        | SNil => (fallback body sigma, sigma)
+        | SCons s rest =>
+            match s with
+            | SIf c a b =>
+                let cond := tcond sigma c in
+                (* if-branch: always starts from the table as it is now *)
+                let r1 := tbody_sh bi be fuel' (sapp a rest) (sapp a rest) sigma in
+                let ctx1 := if on_ctx bi a then snd r1 else sigma in
+                let shared := match bi with BrShared => snd r1 | _ => ctx1 end in
+                let r2 := tbody_sh bi be fuel' (sapp b rest) (sapp b rest)
+                            (match be with BrShared => shared | _ => ctx1 end) in
+                let ctx2 := if on_ctx be b then snd r2 else ctx1 in
+                (join_if cond (fst r1) (fst r2), ctx2)
+            | SReturn e => (lift (texpr sigma e), sigma)
+            | SReturnNone => (TRefused, sigma)
+            | SAssign x e =>
+                match texpr sigma e with
+                | Some v => tbody_sh bi be fuel' body rest ((x, v) :: sigma)
+                | None => (TRefused, sigma)
+                end
+            | STuple xs es =>
+                match ttuple sigma xs es with
+                | Some sigma' => tbody_sh bi be fuel' body rest sigma'
+                | None => (TRefused, sigma)
+                end
+            | SPass => tbody_sh bi be fuel' body rest sigma
+            | SOther =>
+                match f_stmt_else fs with
+                | StmtSkip => tbody_sh bi be fuel' body rest sigma
+                | _ => (TRefused, sigma)
+                end
+            end
+        end
+    end.
+
+  (** the translator before /repo cc17922 (`git show cc17922`), statement by statement:
+        pieces = []; while remaining_body: node = pop(0)
+          If:     pieces.append((_handle_fn_body(node.body, ctx), condition))          -- SAME ctx
+                  orelse = [If]  -> push the elif back;   orelse = else-block -> pieces.append((..., True)); break
+                  no orelse and nothing remaining: `body.index(node)` -- ValueError for a pushed-back elif
+          Return: no pieces -> return the expression;  else pieces.append((expr, True)); break
+          Assign: as now;  anything else: skipped or refused by [f_stmt_else] (pass was "anything else")
+        if pieces: return sympy.Piecewise of the pieces;  else the last-assigned-variable fallback.
+      [pushed] = the head of [remaining] is an elif that was pushed back (it is not an element of
+      [body]).  A [None] inside a piece is modelled as refusal. *)
+  Fixpoint pieces_of (l : list (sexpr * scond)) : pieces :=
+    match l with [] => PNil | (e, c) :: r => PCons e c (pieces_of r) end.
+
+  Definition told_finish (body : stmts) (pcs : list (sexpr * scond)) (sigma : symtab) : tresult * symtab :=
+    match pcs with
+    | [] => (fallback body sigma, sigma)
+    | _ => (TOk (SPw (pieces_of pcs)), sigma)
+    end.
+
+  Fixpoint told (fuel : nat) (body remaining : stmts) (pushed : bool) (pcs : list (sexpr * scond))
+           (sigma : symtab) : tresult * symtab :=
+    match fuel with
+    | O => (TOutOfFuel, sigma)
+    | Datatypes.S fuel' =>
+        match remaining with
+        | SNil => told_finish body pcs sigma
+        | SCons s rest =>
+            match s with
+            | SIf c a b =>
+                match tcond sigma c, told fuel' a a false [] sigma with
+                | Some c', (TOk ie, s1) =>
+                    let pcs' := pcs ++ [(ie, c')] in
+                    match b with
+                    | SNil =>
+                        match rest with
+                        | SNil => if pushed then (TRefused, s1) (* body.index(node): ValueError *)
+                                  else told_finish body pcs' s1
+                        | _ => told fuel' body rest false pcs' s1
+                        end
+                    | SCons (SIf c2 a2 b2) SNil => told fuel' body (SCons (SIf c2 a2 b2) rest) true pcs' s1
+                    | _ =>
+                        match told fuel' b b false [] s1 with
+                        | (TOk ee, s2) => told_finish body (pcs' ++ [(ee, SBool true)]) s2
+                        | (r, s2) => (match r with TOutOfFuel => TOutOfFuel | _ => TRefused end, s2)
+                        end
+                    end
+                | _, (TOutOfFuel, s1) => (TOutOfFuel, s1)
+                | _, (_, s1) => (TRefused, s1)
+                end
+            | SReturn e =>
+                match texpr sigma e with
+                | Some v => match pcs with
+                            | [] => (TOk v, sigma)
+                            | _ => told_finish body (pcs ++ [(v, SBool true)]) sigma
+                            end
+                | None => (TRefused, sigma)
+                end
+            | SReturnNone => (TRefused, sigma)
+            | SAssign x e =>
+                match texpr sigma e with
+                | Some v => told fuel' body rest false pcs ((x, v) :: sigma)
+                | None => (TRefused, sigma)
+                end
+            | STuple xs es =>
+                match ttuple sigma xs es with
+                | Some sigma' => told fuel' body rest false pcs sigma'
+                | None => (TRefused, sigma)
+                end
+            | SPass => told fuel' body rest false pcs sigma
+            | SOther =>
+                match f_stmt_else fs with
+                | StmtSkip => told fuel' body rest false pcs sigma
+                | _ => (TRefused, sigma)
+                end
+            end
+        end
+    end.
+
+  (** _handle_fn_body(fn_def.body, ctx) as [fn_to_sympy] calls it, for whatever shape the facts say *)
+  Definition tbody_top (fuel : nat) (body : stmts) (sigma : symtab) : tresult :=
+    match f_cf fs with
+    | CfContinuation BrCopy BrCopy => tbody fuel body body sigma
+    | CfContinuation bi be => fst (tbody_sh bi be fuel body body sigma)
+    | CfOldPieces => fst (told fuel body body false [] sigma)
+    | CfUnknown => tbody fuel body body sigma      (* refuses at the first if *)
+    end.
 End Translate.
 
 Fixpoint ssize (ss : stmts) : nat :=
@@ -266,7 +446,7 @@ with stsize (s : stmt) : nat :=
 
 (** fn_to_sympy(fn) with model_args = None: (fn_args, expression) *)
 Definition tfun (fs : facts) (S : list summary) (fd : fundef) : summary :=
-  match tbody fs S (fd_globals fd) (Datatypes.S (ssize (fd_body fd))) (fd_body fd) (fd_body fd)
+  match tbody_top fs S (fd_globals fd) (Datatypes.S (ssize (fd_body fd))) (fd_body fd)
           (map (fun p => (p, SSym p)) (fd_params fd)) with
   | TOk e => Some (fd_params fd, e)
   | _ => None
@@ -292,7 +472,7 @@ Definition expected_facts : facts :=
     [(Add, Add); (Sub, Sub); (Mul, Mul); (Div, Div); (Pow, Pow); (Mod, Mod); (FloorDiv, FloorDiv)]
     [(UAdd, UAdd); (USub, USub)]
     [(Gt, RelGt); (GtE, RelGe); (Lt, RelLt); (LtE, RelLe); (CEq, RelEq); (CNe, RelNe)]
-    true SubsSim TupSim StmtRaise CfContinuation true true true.
+    true SubsSim TupSim StmtRaise (CfContinuation BrCopy BrCopy) true true true ConstAtCall.
 
 (** --- helpers for the correspondence files ------------------------------------------------ *)
 Definition val_of (l : list (name * Q)) : valuation := fun x => match assoc x l with Some q => Some (Qred q) | None => None end.
